@@ -1,6 +1,7 @@
 """Deductive obligations of C01: style decision (D1), token hygiene (D2), the default-sentence codec (D4 = C17's)."""
 KEYS = [
     "doctrans.docstring_parsers:parse_docstring",
+    "doctrans.docstring_parsers:_parse_phase_numpydoc_and_google",
     "doctrans.pure_utils:indent_all_but_first",
     "doctrans.defaults_utils:set_default_doc",
     "doctrans.defaults_utils:extract_default",
